@@ -18,7 +18,7 @@
       guards of [run]: C01 commit_needs_certificate / C08 finalize_needs_quorum,
                    C08 entrances_strictly_increase, next_height_after_finalization_stored. *)
 From Coq Require Import List NArith.
-From GV Require Import Base.Ints Gen.Math Proofs.Thresholds Model.Network Monitors.C03m Proofs.Network.
+From GV Require Import Base.Ints Gen.Math Gen.Commit Proofs.Thresholds Model.Network Monitors.C03m Proofs.Network Proofs.CommitLadder.
 Import ListNotations.
 Local Open Scope N_scope.
 
@@ -106,3 +106,31 @@ Theorem C03_hypotheses_satisfiable :
   run ex_vals (init_node 1) [Enter 2] = None.
 Proof. exact hypotheses_satisfiable. Qed.
 Print Assumptions C03_hypotheses_satisfiable.
+
+(** Static tie of the commit guards: the decision ladders GENERATED from
+    tmstate/statemachine.go:handlePrecommitViewUpdate and tmi/kernel.go:checkVotingPrecommitViewShift
+    (Gen/Commit.v) commit exactly on the model's quorum test for a non-nil block. *)
+Theorem C03_sm_commit_iff_quorum : forall vals mask tot nil hp hn,
+  1 <= total vals -> total vals < two64 -> pow vals mask <= tot ->
+  (sm_precommit_ladder (total vals) tot (pow vals mask) nil hp hn = Ok ActBeginCommit <->
+   quorumb vals mask = true /\ nil = false).
+Proof. exact sm_commit_iff_quorum. Qed.
+Print Assumptions C03_sm_commit_iff_quorum.
+
+Theorem C03_kernel_commit_iff_quorum : forall vals mask tot nil hp hn,
+  1 <= total vals -> total vals < two64 ->
+  (kernel_precommit_ladder (total vals) tot (pow vals mask) nil hp hn = Ok ActShiftCommit <->
+   quorumb vals mask = true /\ nil = false /\ hp = true /\ hn = false).
+Proof. exact kernel_commit_iff_quorum. Qed.
+Print Assumptions C03_kernel_commit_iff_quorum.
+
+Theorem C03_model_guard_is_code_guard : forall vals n r b tot hp hn,
+  1 <= total (vals (n_height n)) -> total (vals (n_height n)) < two64 ->
+  pow (vals (n_height n)) (signers (n_held n) Precommit (n_height n) r b) <= tot ->
+  ((exists n', step vals n (Finalize r b) = Some n') <->
+   (n_done n = false /\
+    sm_precommit_ladder (total (vals (n_height n))) tot
+      (pow (vals (n_height n)) (signers (n_held n) Precommit (n_height n) r b)) (b =? 0) hp hn
+    = Ok ActBeginCommit)).
+Proof. exact model_guard_is_code_guard. Qed.
+Print Assumptions C03_model_guard_is_code_guard.
